@@ -249,6 +249,7 @@ type rzHarness struct {
 	cancelled map[string]chan struct{}        // handler key -> gate of a cancelled tool handler waiting to return
 	finishing bool
 	firsts    map[string]int // "<real session>\x00<real stream>" -> dataList.first last reported (evictions by the store)
+	maxBytes  int           // standing limit of the store set by `maxbytes` (0 = default)
 	yieldSite string        // one-shot: the next goroutine reaching this verifYield site parks
 	yieldGate chan struct{} // ... on this gate
 	yielded   bool          // a goroutine is parked at the site (the site is instrumented in this tree)
@@ -1056,13 +1057,14 @@ func (h *rzHarness) apply(toks []string) (obs string) {
 			n = 1
 		}
 		h.store.inner.SetMaxBytes(n)
-		h.store.inner.SetMaxBytes(0)
+		h.store.inner.SetMaxBytes(h.maxBytes)
 		return h.observe()
 	case "maxbytes": // maxbytes <n> : the store keeps this limit from now on (0 = default): appends evict
 		if h.store == nil {
 			return "nostore"
 		}
 		n, _ := strconv.Atoi(toks[1])
+		h.maxBytes = n
 		h.store.inner.SetMaxBytes(n)
 		return h.observe()
 	case "kill": // kill <sess> : the transport is closed underneath the session
@@ -1185,6 +1187,9 @@ func (h *rzHarness) race(toks []string, writeFirst bool) string {
 	tag := strings.Join([]string{w[0], w[1], w[2], w[4], w[5]}, ".")
 	park := make(chan struct{})
 	var res func() string
+	// no eviction while the two parties race (which of them the store would evict under is not controlled here):
+	// the standing limit is lifted for the race and re-imposed — evicting — once both are done
+	h.store.inner.SetMaxBytes(0)
 	if writeFirst {
 		h.mu.Lock()
 		h.store.parkAppend = park
@@ -1207,6 +1212,7 @@ func (h *rzHarness) race(toks []string, writeFirst bool) string {
 	h.mu.Lock()
 	h.store.parkAppend, h.store.parkAfter = nil, nil
 	h.mu.Unlock()
+	h.store.inner.SetMaxBytes(h.maxBytes)
 	return h.observe(w[0]) + " w=" + res()
 }
 
@@ -1237,6 +1243,9 @@ func (h *rzHarness) raceRouted(toks []string) string {
 	}
 	tag := strings.Join([]string{w[0], w[1], w[2], w[4], w[5]}, ".")
 	gate := make(chan struct{})
+	if h.store != nil {
+		h.store.inner.SetMaxBytes(0) // as in race(): no eviction inside the race
+	}
 	h.mu.Lock()
 	h.yieldSite, h.yieldGate, h.yielded = "streamable.Write.routed", gate, false
 	h.mu.Unlock()
@@ -1253,6 +1262,9 @@ func (h *rzHarness) raceRouted(toks []string) string {
 	h.mu.Lock()
 	h.yieldGate, h.yielded = nil, false
 	h.mu.Unlock()
+	if h.store != nil {
+		h.store.inner.SetMaxBytes(h.maxBytes)
+	}
 	ws := "0"
 	if win {
 		ws = "1"
